@@ -38,6 +38,7 @@ type genState struct {
 	tracer  string
 	kind    string
 	name    string
+	labels  map[string]string // labels at creation (nil once another layer merged into or replaced the object)
 }
 
 // C06: generators layer like dictionaries; the name suffix is a function of the final content.
@@ -71,7 +72,7 @@ func init() {
 					if cur != nil {
 						wantErr = "create-on-existing"
 					} else {
-						st[key] = &genState{data: lit, layer: g.Layer, disable: g.Disable, tracer: g.Tracer, kind: g.Kind, name: g.Name}
+						st[key] = &genState{data: lit, layer: g.Layer, disable: g.Disable, tracer: g.Tracer, kind: g.Kind, name: g.Name, labels: g.WantLabels}
 					}
 				case "merge":
 					if cur == nil {
@@ -80,6 +81,7 @@ func init() {
 						for k, v := range lit {
 							cur.data[k] = v
 						}
+						cur.labels = nil
 						cur.tracer = g.Tracer // annotations merge: the overlay's tracer wins
 						cur.disable = cur.disable || g.Disable // the suffix is added only if no layer of the chain disables it
 					}
@@ -88,6 +90,7 @@ func init() {
 						wantErr = "replace-on-absent"
 					} else {
 						cur.data = lit
+						cur.labels = nil
 						cur.tracer = g.Tracer
 						cur.disable = cur.disable || g.Disable
 					}
@@ -145,6 +148,16 @@ func init() {
 				if fmt.Sprint(gotData) != fmt.Sprint(s.data) {
 					o.fail("layered-data", fmt.Sprintf("%s %s data = %v, dictionary fold gives %v", s.kind, s.name, gotData, s.data), cs, t.Describe(), gotData, s.data)
 					continue
+				}
+				// options: the layer's generatorOptions.labels overlaid by the generator's own labels
+				if s.labels != nil {
+					md, _ := d["metadata"].(map[string]interface{})
+					gl := strMap(md["labels"])
+					for k, v := range s.labels {
+						if gl[k] != v {
+							o.fail("generator-options-labels", fmt.Sprintf("%s %s label %s is %q, generatorOptions overlaid by the generator's options give %q", s.kind, s.name, k, gl[k], v), cs, t.Describe(), gl, s.labels)
+						}
+					}
 				}
 				// name: affixes of the layers from the creating layer outwards, then the hash of the final content
 				gr := &GenRes{Kind: s.kind, Name: s.name, Layer: s.layer}
